@@ -935,7 +935,19 @@ def sc_terminate_during_supervision(params, obs, save):
         log('process_down', wpid=w.pid, exitcode=w.exitcode)
         in_hook.set()
         time.sleep(params.get('hook_sleep', 1.2))
-    pool = _mkpool(params, up, {'on_process_down': slow_down_hook})
+    if params.get('window') == 'create':
+        # the supervisor is descheduled while it builds the replacement worker:
+        # after its "is the pool still running" test, before the worker is started
+        pool = _mkpool(params, up, {'on_process_down':
+                                    lambda w: log('process_down', wpid=w.pid, exitcode=w.exitcode)})
+        orig_queues = pool.get_process_queues
+
+        def slow_queues():
+            in_hook.set()
+            time.sleep(params.get('hook_sleep', 1.2))
+            return orig_queues()
+    else:
+        pool = _mkpool(params, up, {'on_process_down': slow_down_hook})
     seen = set()
     t_end = time.monotonic() + 20
     while len(seen) < params['nproc'] and time.monotonic() < t_end:
@@ -943,6 +955,8 @@ def sc_terminate_during_supervision(params, obs, save):
         for x in hs:
             seen.add(x.get(20)[2])
     time.sleep(0.4)
+    if params.get('window') == 'create':
+        pool.get_process_queues = slow_queues     # (delays only; replacements from now on)
 
     def wchan(pid):
         try:
